@@ -449,6 +449,10 @@ func (p *proxyConn) writeResponse(res *http.Response) error {
 		if req.Method == http.MethodConnect && res.StatusCode/100 == 2 {
 			res.Close = false
 		}
+		// After switching protocols the connection carries the upgraded stream, it must stay open.
+		if res.StatusCode == http.StatusSwitchingProtocols {
+			res.Close = false
+		}
 	}
 
 	if res.Close {
